@@ -7,6 +7,12 @@ HERE = os.path.dirname(os.path.dirname(os.path.abspath(__file__)))
 
 CLAIMED = {
     # id: (technique, level text, level note, design_ref)
+    'C01': ('CBMC/DFCC function + loop contracts over a ghost-versioned state model, on code extracted from /repo each run',
+            'proof of the truthfulness clause for gd, cgd-*, lbfgs, bfgs/dfp/sr1/hoshino/fletcher (their four do_minimize bodies, solver_t::done, lsearch_t::get, gradient_test): a returned `converged` state passed its own gradient test max|g|/max(1,|f|) < epsilon on one consistent evaluation, for every function, line search and tolerance; the convergence-within-1500-evaluations sentence is not decided',
+            'vector algebra erased (purity-checked), state constructor/update and Eigen lpNorm assumed, line search by the contract proved in C07 (refinement lemma checked)', '7/C01'),
+    'C02': ('CBMC/DFCC function + loop contracts over a ghost-versioned state model, on code extracted from /repo each run',
+            'proof for solver_t::done, lsearch_t::get and the do_minimize bodies shared by the 17 line-search solvers: status in {converged,max_iters,failed}; non-failed => valid (finite value and point); reported (x,f,g) is one consistent evaluation; reported counts <= evaluations performed; budget loop terminates and overshoots max_evals by at most one line search; the remaining solver bodies and the numeric clauses are not decided',
+            'vector algebra erased (purity-checked), evaluation counting via ghost counter (function_t counters assumed to count evaluations), line search by the contract proved in C07', '7/C02'),
     'C07': ('CBMC/DFCC function + loop contracts over a ghost-versioned state model, on code extracted from /repo each run',
             'proof for lsearchk_t::get/update and the backtrack, LeMarechal, Fletcher(+zoom) bodies: success is returned only right after the advertised predicates were evaluated true on the current trial point with the returned step, the state is then the valid evaluation at x+t*d, a non-descent direction is refused with the state untouched, every loop terminates',
             'state.update(x) = one evaluation at x (assumed), interpolation havocked, parameters inside their registered domains; success on quadratics and CG_DESCENT/More-Thuente bodies not decided', '7/C07'),
